@@ -38,6 +38,13 @@ class Interpreter {
         continue;
       }
       this.impl.start_evaluating(line);
+      if (this.impl.get_state() === JsInterpreterState.Errored) {
+        // The line couldn't be stored (e.g. it doesn't tokenize). Submitting
+        // anything else before the error has been taken would trip an assertion
+        // in the interpreter and kill the page, so stop loading here: `start()`
+        // shows the error through the normal state handler.
+        return;
+      }
     }
     this.impl.start_evaluating("RUN");
   }
